@@ -17,6 +17,9 @@ type BlockStats struct {
 	Blocks        int
 	Chunks        int
 	MaxChunkPlain int
+	// MaxDeclaredBlock is the largest block length field read (even if the
+	// stream turned out to be malformed afterwards).
+	MaxDeclaredBlock int
 }
 
 // WriteBlocks is an independent writer of Hadoop's block-compressed stream:
@@ -67,6 +70,9 @@ func ReadBlocks(b []byte) ([]byte, BlockStats, error) {
 		blockLen := int(binary.BigEndian.Uint32(b))
 		b = b[4:]
 		st.Blocks++
+		if blockLen > st.MaxDeclaredBlock {
+			st.MaxDeclaredBlock = blockLen
+		}
 		got := 0
 		for got < blockLen {
 			if len(b) < 4 {
